@@ -94,6 +94,17 @@ def fam_C08(tier, seed):
         i = b.ind(icls, name=icls, tasks=[a, d])
         b.obj(ocls, ind=i, kind="maximize" if icls == "MinimumStartTime" else "minimize")
         ps.append(b.done())
+    # total cost over SEVERAL resources with time-dependent costs (the halves of the trapeze areas add up before rounding)
+    for (c1, c2, c3), H in itertools.product([(("lin", 3, 10), ("lin", 3, 10), ("lin", 1, 0)), (("lin", 1, 0), ("lin", 1, 1), ("poly", 1, 0, 1)),
+                                              (("lin", 1, 0), ("lin", 3, 0), 2)], (4, 5)):
+        b = PB(H, tag="cost-several-resources")
+        ws = [b.worker(f"W{i + 1}", cost=c) for i, c in enumerate((c1, c2, c3))]
+        ts = [b.task("ABC"[i], "F", dur=d) for i, d in enumerate((3, 1, 1))]
+        for t, w in zip(ts, ws):
+            b.require(t, worker=w)
+        b.ind("IndicatorResourceCost", ress=[res_worker(w) for w in ws])
+        b.ind("IndicatorResourceCost", ress=[res_worker(ws[0]), res_worker(ws[1])])
+        ps.append(b.done())
     # utilisation WITHOUT a user horizon: the percentage is relative to the horizon the solution reports; a target on
     # the utilisation makes the horizon differ from the end of the last task
     for d1, tgt, opt in itertools.product((1, 2), (None, 25, 50, 100), (False, True)):
